@@ -5,6 +5,8 @@ from symx import loader
 from checks import published_constants as PC
 
 PID = "C18"
+TECHNIQUE = 'ground obligations computed through the real code (order, membership, distinctness, point of order 8L + Hasse interval, published constants) and a symbolic run of the IntegerGroup constructor with pow uninterpreted'
+LEVEL_NOTE = 'primality of p, q, Q, L is trusted as published (Miller-Rabin only); constructor run bounded to small bit lengths'
 EXPLANATION = (
     "Mostly ground facts about four constant sets (there is no input to quantify over). (1) The constants in the source "
     "(p, q, g; Q, L, d, base point; M, N, S) equal the published values pinned in checks/published_constants.py "
